@@ -29,6 +29,7 @@ type GateSpec struct {
 	Sink  string
 	NoRet bool
 	Cfg   string // configuration (default "default")
+	Block string // same syntax as Sink: instructions that discharge a path (must-pass-through)
 }
 
 type FrozenGate struct {
@@ -44,14 +45,16 @@ type FuncTable struct {
 	Sink    string       `json:"sink,omitempty"`
 	NoRet   bool         `json:"no_ret,omitempty"`
 	Cfg     string       `json:"cfg,omitempty"`
+	Block   string       `json:"block,omitempty"`
 	Accepts int          `json:"accept_sites"`
 	Gates   []FrozenGate `json:"gates"`
+	Bounds  []string     `json:"bounds,omitempty"`
 	// Required lists gates that the property demands but that are not (yet)
 	// present in the tree; they are checked exactly like frozen gates and are
 	// how a missing check is reported.
 }
 
-func (s GateSpec) key() string { return s.Func + "|" + s.Sink + "|" + s.Cfg }
+func (s GateSpec) key() string { return s.Func + "|" + s.Sink + "|" + s.Cfg + "|" + s.Block }
 
 func tablePath(prop string) string {
 	return filepath.Join(core.VerifDir(), "tables", "gates", prop+".json")
@@ -151,6 +154,11 @@ func ParseSink(p *core.Prog, fn *ssa.Function, spec string) (apo.Sink, error) {
 
 // computeGates analyses one function under a spec.
 func computeGates(c *Ctx, s GateSpec) (*apo.FnAnalysis, []apo.Gate, int, error) {
+	a, g, n, err := computeGates0(c, s)
+	return a, g, n, err
+}
+
+func computeGates0(c *Ctx, s GateSpec) (*apo.FnAnalysis, []apo.Gate, int, error) {
 	cfg := s.Cfg
 	if cfg == "" {
 		cfg = "default"
@@ -167,7 +175,11 @@ func computeGates(c *Ctx, s GateSpec) (*apo.FnAnalysis, []apo.Gate, int, error) 
 	if err != nil {
 		return nil, nil, 0, err
 	}
-	a := apo.Analyze(fn, apo.AcceptSpec{NoRet: s.NoRet, Sink: sink})
+	block, err := ParseSink(p, fn, s.Block)
+	if err != nil {
+		return nil, nil, 0, err
+	}
+	a := apo.Analyze(fn, apo.AcceptSpec{NoRet: s.NoRet, Sink: sink, Block: block})
 	a.Deps = apo.NewDepAnalysis(fn, c.Sum[cfg].Summary)
 	gates := a.Gates()
 	return a, gates, a.AcceptCount(), nil
@@ -186,14 +198,17 @@ func GenGates(c *Ctx, prop string, specs []GateSpec) error {
 	}
 	var out []FuncTable
 	for _, s := range specs {
-		_, gates, nacc, err := computeGates(c, s)
+		an, gates, nacc, err := computeGates(c, s)
 		if err != nil {
 			return err
 		}
-		ft := FuncTable{Func: s.Func, Sink: s.Sink, NoRet: s.NoRet, Cfg: s.Cfg, Accepts: nacc}
+		ft := FuncTable{Func: s.Func, Sink: s.Sink, NoRet: s.NoRet, Cfg: s.Cfg, Block: s.Block, Accepts: nacc}
 		for _, g := range gates {
 			ft.Gates = append(ft.Gates, FrozenGate{Cond: g.Cond, FailWhen: g.FailWhen, MustPass: g.MustPass, Deps: g.Deps,
 				Why: why[s.Func+"|"+s.Sink+"|"+g.Cond]})
+		}
+		if s.Sink == "" && s.Block == "" {
+			ft.Bounds = an.Bounds()
 		}
 		out = append(out, ft)
 	}
@@ -214,17 +229,13 @@ func CheckGates(c *Ctx, prop string, specs []GateSpec) {
 	}
 	byKey := map[string]FuncTable{}
 	for _, t := range tables {
-		byKey[t.Func+"|"+t.Sink+"|"+t.Cfg] = t
+		byKey[t.Func+"|"+t.Sink+"|"+t.Cfg+"|"+t.Block] = t
 	}
 	for _, s := range specs {
 		ft, ok := byKey[s.key()]
 		if !ok {
 			c.R.Fatalf("no frozen table for %s (sink %q); run gen-gates", s.Func, s.Sink)
 			continue
-		}
-		site := s.Func
-		if s.Sink != "" {
-			site += " ⊢ " + s.Sink
 		}
 		a, gates, nacc, err := computeGates(c, s)
 		if err != nil {
@@ -239,12 +250,28 @@ func CheckGates(c *Ctx, prop string, specs []GateSpec) {
 			continue
 		}
 		c.R.Ok("APO-ANCHOR", s.Func, "sink="+s.Sink, pos, fmt.Sprintf("%d accept outcome(s), %d gates found", nacc, len(gates)), false)
+		if len(ft.Bounds) > 0 {
+			have := map[string]bool{}
+			for _, b := range a.Bounds() {
+				have[b] = true
+			}
+			for _, b := range ft.Bounds {
+				if have[b] {
+					c.R.Ok("APO-BOUND", s.Func, b, pos, "length/index/threshold comparison unchanged (operands and strictness)", true)
+				} else {
+					c.R.Bad("APO-BOUND", s.Func, b, pos, "a length/index/threshold comparison of this function changed its operands or strictness (or disappeared)")
+				}
+			}
+		}
 		cur := map[string]apo.Gate{}
 		for _, g := range gates {
 			cur[fmt.Sprintf("%s|%v", g.Cond, g.FailWhen)] = g
 		}
 		for _, fg := range ft.Gates {
 			gsite := fmt.Sprintf("sink=%s fail_when=%v cond=%s", s.Sink, fg.FailWhen, fg.Cond)
+			if s.Block != "" {
+				gsite = "through=" + s.Block + " " + gsite
+			}
 			g, ok := cur[fmt.Sprintf("%s|%v", fg.Cond, fg.FailWhen)]
 			if !ok {
 				detail := "required check no longer gates the accept outcome: it is absent, its result is unused, or an accept outcome is reachable when it fails"
